@@ -54,12 +54,28 @@ Print Assumptions C07_missing_component_is_a_load_error.
 
 Theorem C07_a_use_evaluates_its_arguments_at_the_place_of_use cx f en ln cid name l1 pairs slots ss :
   eval_stmt cx (S f) en (SComponent ln cid name (Some (EObj l1 pairs)) slots (Some ss)) =
-  (let! kvs := eval_pairs cx f en (asort pairs) in
-   let en1 := fold_left (fun e kv => env_set_ignore e (fst kv) (snd kv)) kvs ([] :: en) in
+  (let! en1 := bind_args cx f ln en (asort pairs) ([] :: en) in
    let! r := eval_program cx f en1 ss [] in
    Ok (VComponent (VHtml (fst r)), tl (snd r))).
 Proof. exact (component_use_renders cx f en ln cid name l1 pairs slots ss). Qed.
 Print Assumptions C07_a_use_evaluates_its_arguments_at_the_place_of_use.
+
+(* every argument is bound: when the binding succeeds, each key is visible in the component's
+   scope with the value its expression has at the place of use (en), every other name keeps the
+   binding it has there *)
+Theorem C07_every_argument_is_bound cx f ln en ps ne ne' :
+  ne <> [] -> NoDup (map fst ps) -> bind_args cx f ln en ps ne = Ok ne' ->
+  (forall k x, In (k, x) ps -> exists v, eval_expr cx f en x = Ok v /\ env_get ne' k = Some v) /\
+  (forall k2, ~ In k2 (map fst ps) -> env_get ne' k2 = env_get ne k2).
+Proof. exact (bind_args_binds cx f ln en ps ne ne'). Qed.
+Print Assumptions C07_every_argument_is_bound.
+
+(* and an argument that cannot be bound fails the render; it is never skipped silently *)
+Theorem C07_an_argument_that_cannot_be_bound_fails cx f en ln cid name l1 k x slots ss v msg :
+  eval_expr cx f en x = Ok v -> env_set ([] :: en) k v = inr msg ->
+  eval_stmt cx (S f) en (SComponent ln cid name (Some (EObj l1 [(k, x)])) slots (Some ss)) = Fail ln msg.
+Proof. exact (component_argument_that_cannot_be_bound_fails cx f en ln cid name l1 k x slots ss v msg). Qed.
+Print Assumptions C07_an_argument_that_cannot_be_bound_fails.
 
 Theorem C07_placeholder_shows_the_passed_body cx f en ln n b :
   eval_stmt cx (S f) en (SSlot ln n (Some b)) =
